@@ -57,7 +57,10 @@ def plum_to_kiwi_future(plum_future: futures.Future) -> kiwipy.Future:
                     result = plum_to_kiwi_future(result)
                 kiwi_future.set_result(result)
 
-    plum_future.add_done_callback(on_done)
+    # This function is also called from communicator threads while the plum future belongs to (and may be completed
+    # by) its event loop at any moment, so the callback has to be registered from the loop's own thread: ``Future`` is
+    # not thread safe and the callback of an already finished future would be scheduled without waking up the loop
+    plum_future.get_loop().call_soon_threadsafe(plum_future.add_done_callback, on_done)
     return kiwi_future
 
 
